@@ -92,7 +92,6 @@ pub enum Color {
     #[serde(rename = "dark-blue")]
     DarkBlue,
 }
-pub const COLOR_WIRE: [&str; 3] = ["Red", "green", "dark-blue"];
 impl EchoScalar for Color {
     fn sv(&self) -> Sv {
         Sv::Enum(
